@@ -247,9 +247,10 @@ def judge_long_names(ctx: Ctx):
             ctx.sample({"filename_length": len(case[0]), "head": case[0][:6], "tail": case[0][-6:], "secure_filename_length": n,
                         "secure_filename_tail": ps.txt(ln["out"][-6:])})
     ctx.count(len(lines))
-    if stats["output_255_or_256"] < 20 or stats["output_over_255"] < 100:
+    stats["inputs_of_255_or_more"] = sum(len(c[0]) >= 255 for c in cases)
+    if stats["inputs_of_255_or_more"] < 1000:        # (outputs are not a guard: a length limit may be legitimate)
         raise MachineryError(f"long-name driver is vacuous: {stats}")
-    _judge(ctx, lines, lambda ln: ("secure_filename", {"x": ln["x"]}), "san", batch=250, prefix="LongName")
+    _judge(ctx, lines, lambda ln: ("secure_filename", {"x": ln["x"]}), "san", batch=800, prefix="LongName")
     return stats
 
 
